@@ -67,10 +67,9 @@ CONFIG = dict(
     assumptions=["hooks do not assign to stackscope._extract.current_options themselves",
                  "an operation (one push, one restore, one extract_child decision) is atomic w.r.t. other threads; with a thread-local store "
                  "this is immaterial (theorem C13_noninterference), the free-running leg exercises real preemption"],
-    unproved_legs=["C13_with_contexts_off: proved at the level of the option model (Read observes empty contexts under (False, _) at every depth, "
-                   "all schedules) and for M_Frames (with_ctx = false => every frame of the result has no contexts). 'The frames do not change' "
-                   "between with_contexts=True/False is a run-time oracle only (every 'read' compares the extracted python frames with the "
-                   "expected two frames under both settings); no two-run theorem over M_Frames was attempted",
+    unproved_legs=["C13_frames_independent_of_with_contexts (two-run theorem over M_Frames: same frame ids, hide flags, origins and leaf, no contexts) "
+                   "is stated for fault-free configurations: the contexts step consumes ticks, so the k-th-invocation faults of C05 would hit "
+                   "different hook calls in the two runs; error lists are allowed to differ (context-hook errors exist only in the with-contexts run)",
                    "histories with calls still open when the schedule ends are covered by the theorems (any schedule prefix) but cannot be "
                    "produced with real threads beyond parking them mid-call, which every non-final schedule position does"],
     timeout={"quick": 900, "thorough": 5400},
